@@ -199,7 +199,7 @@ async def run_sequence(srv, names, local, probe=True):
     if probe:
         obs = await observe(c)
     await c.eof()
-    return out, obs, issues
+    return out, obs, issues, (None if adv is None else b'LOGINDISABLED' in adv)
 
 
 async def observe(c):
@@ -274,7 +274,7 @@ def model_run(m, names, tls, local):
         if tok.startswith('auth:1:') and not mech:
             tok = 'auth:0:0:-'              # no SASL mechanism is on offer before STARTTLS from a remote peer
         r = m.ask('conn step ' + tok).split()
-        res.append((r[0], r[1], r[2], r[3], tok))
+        res.append((r[0], r[1], r[2], r[3], tok, r[5] if len(r) > 5 else None))
         user = None if r[1] == '-' else int(r[1])
         mech = r[4] == 'mech'
     return res
@@ -321,7 +321,7 @@ async def run_batch(part, seqs, prop, refused_check=True):
             case = dict(tls=tls, local=local, sequence=list(names))
             srv, config = await make_server(tls)
             sizes = await sizes_of(srv)
-            real, obs, issues = await run_sequence(srv, names, local)
+            real, obs, issues, adv_real = await run_sequence(srv, names, local)
             for issue in issues:
                 part.violation('monitor', f'{prop}: config tls={tls} local={local}: {issue}; sequence {list(names)}', case, signature='advertised-vs-accepted')
             mod = model_run(m, names, tls, local)
@@ -329,6 +329,15 @@ async def run_batch(part, seqs, prop, refused_check=True):
                       sample=dict(tls=tls, local=local, sequence=list(names), results=real))
             part.trace()
             ok = True
+            # the capability list the client holds at the end: LOGINDISABLED in it or not (model: Conn.Wire.adv, about which
+            # C09_advertised_enforced is proved) — compared when the connection is still open and the client did not end on garbage
+            if mod and mod[-1][5] is not None and mod[-1][3] == 'open' and 'CLOSED' not in real and 'MALFORMED' not in real:
+                adv_model = {'adv=1': True, 'adv=0': False, 'adv=-': None}.get(mod[-1][5])
+                part.stat('advertised-compared')
+                if adv_model != adv_real:
+                    ok = False
+                    part.violation('correspondence', f'{prop}: config tls={tls} local={local}: after {list(names)} the client holds LOGINDISABLED={adv_real}, '
+                                   f'the Wire model says {adv_model}', case, signature='conn-advertised')
             for j, (r, mm) in enumerate(zip(real, mod)):
                 part.stat('class:' + r)
                 want = mm[0] if mm[3] == 'open' or mm[0].startswith('BYE') else mm[0]
@@ -381,7 +390,7 @@ async def run_batch(part, seqs, prop, refused_check=True):
                     reduced = tuple(n for j, n in enumerate(names) if j not in refused)
                     d1 = await data_dump(srv)
                     srv2, _ = await make_server(tls)
-                    real2, obs2, _ = await run_sequence(srv2, reduced, local)
+                    real2, obs2, _, _ = await run_sequence(srv2, reduced, local)
                     d2 = await data_dump(srv2)
                     part.stat('refused-noop-checked')
                     if obs2 != obs or d1 != d2:
